@@ -126,6 +126,8 @@ static void dump(struct timeval *tv){
         int m = cbuf_peek(dev->to, tb, sizeof tb); if (m < 0) m = 0; printf("O dev %d to ", ix); hexout(tb, m); printf("\n");
         m = cbuf_peek(dev->from, tb, sizeof tb); if (m < 0) m = 0; printf("O dev %d from ", ix); hexout(tb, m); printf("\n");
         printf("O dev %d queue", ix); { ListIterator i2 = list_iterator_create(dev->acts); Action *a; while ((a = list_next(i2))) printf(" %d:%d", a->com, a->client_id); list_iterator_destroy(i2); } printf("\n");
+        /* harness-only line (not compared): identity and deadline start of each queued action; addresses are not reused while ASan's quarantine holds them */
+        printf("I dev %d acts", ix); { ListIterator i2 = list_iterator_create(dev->acts); Action *a; while ((a = list_next(i2))) printf(" %lx:%ld", (unsigned long)a, (long)a->time_stamp.tv_sec*1000000L + a->time_stamp.tv_usec); list_iterator_destroy(i2); } printf("\n");
         ix++; }
       list_iterator_destroy(di); }
     if (tv) { if (timerisset(tv)) printf("O tmo %ld\n", (long)tv->tv_sec*1000000L + tv->tv_usec); else printf("O tmo none\n"); }
